@@ -47,7 +47,7 @@ def run(ctx):
                  # values that agree to several significant digits still identify different combinations
                  ("MassFunction", {}, {"delta_c": [1.686, 1.68647, 1.6864700001], "z": [0.0, 1.0]}, ["dndm"], "display", False),
                  ("Transfer", {}, {"sigma_8": [0.8, 0.80004], "cosmo_params": [{"Om0": 0.3}, {"Om0": 0.30001}]}, ["power"], "filename", False)]
-        for case in range(len(fixed) + (10 if quick else 150)):
+        for case in range(len(fixed) + (16 if quick else 150)):
             if case < len(fixed):
                 cn, extra, lists, qs, label_kind, tup_ = fixed[case]
                 extra_ = extra
